@@ -167,6 +167,8 @@ func c01(c *Ctx) {
 	c01SharedMaps(c, svcs, allReach)
 	c01DecoderLoops(c, allReach)
 	c01UnlockBalanced(c)
+	// the decoder-driven loops leave through the decoder's recorded error: it must stay set once set (shared with C09/C17)
+	decoderErrorSticky(c, "decoder-error-sticky")
 	// a lock of the shared service object that a recovered panic leaves held stops the service for every later connection (shared with C09)
 	c09LockRelease(c)
 }
